@@ -104,9 +104,10 @@ def main():
     rc = 0
     for r, k in known_hits:
         print(f'KNOWN-FINDING: property={pid} {k["what"]} (group {r.group.name}, obligations {",".join(p[0] for p in r.failed)})')
-    os.makedirs(os.path.join(ROOT, 'replays'), exist_ok=True)
+    OUT = os.environ.get('VERIF_OUT') or ROOT
+    os.makedirs(os.path.join(OUT, 'replays'), exist_ok=True)
     for r in violations:
-        path = os.path.join(ROOT, 'replays', f'{pid}-{re.sub(chr(92)+"W", "_", r.group.name)}.json')
+        path = os.path.join(OUT, 'replays', f'{pid}-{re.sub(chr(92)+"W", "_", r.group.name)}.json')
         rep = {'property': pid, 'group': r.group.name, 'clause': r.group.clause,
                'failed_obligations': [{'name': p[0], 'description': p[1], 'line': p[3]} for p in r.failed],
                'counterexample': r.trace_inputs, 'backend': r.backend, 'native_replay': None}
@@ -217,8 +218,9 @@ def write_evidence(pid, tier, seed, mod, results, metas, wall, violations=(), kn
     ev = {'property_id': pid, 'tier': tier if tier in ('quick', 'thorough') else 'quick', 'seed': seed, 'level': level,
           'coverage': cov, 'assumptions': meta.get('assumptions', []) + [f'bounded: {b}' for b in bounded],
           'wall_s': round(wall, 2), 'violations': len(violations)}
-    os.makedirs(os.path.join(ROOT, 'evidence'), exist_ok=True)
-    json.dump(ev, open(os.path.join(ROOT, 'evidence', pid + '.json'), 'w'), indent=1)
+    OUT = os.environ.get('VERIF_OUT') or ROOT
+    os.makedirs(os.path.join(OUT, 'evidence'), exist_ok=True)
+    json.dump(ev, open(os.path.join(OUT, 'evidence', pid + '.json'), 'w'), indent=1)
 
 
 if __name__ == '__main__':
